@@ -14,14 +14,14 @@ import (
 // constants once, sort them, search them, put them into a set, keep them in a fixed-size array - depends on the NUMBER
 // of literals and on the ORDER in which they are written, and was invisible. Here the list is the object:
 //
-//	length   1..21 literals (thorough 1..40), and long lists of 32 / 64 / 257 (thorough also 63 65 127 128 129 255 256 1000)
+//	length   1..21 literals (thorough 1..32), and long lists of 32 / 64 / 257 (thorough 63 64 65 127 128 129 256 257 1000)
 //	order    ascending, descending, shuffled, shuffled with duplicates, ascending rotated, ascending with one swap
 //	probe    the literal of s at EVERY position k of the list (sampled for the long lists / secondary paths); every
 //	         other literal of the list is a stored row too, so each position is probed twice
 //	values   single letters (the minimal replay), generated ids, strings that are prefixes of each other and the empty
 //	         string, long common prefix + number (lexicographic != numeric order), mixed case / non-ASCII / quotes /
 //	         backslashes / keywords
-//	rows     every value of the list (quick tier, long lists: 32 of them), non-members next to the smallest / median / largest member (one byte longer,
+//	rows     every value of the list (long lists: 32-48 of them, evenly spaced in byte order), non-members next to the smallest / median / largest member (one byte longer,
 //	         one byte shorter, other letter case), the empty string, a blank, a string above all members, no value
 //
 // Expected (oracle q_expected / m_expected, model in_query / filter_query - theorem in_list_exact quantifies over every
@@ -270,14 +270,14 @@ func (g *c11qGen) allL(o *opts, r *rng) {
 	var lengths []int
 	maxShort := 21
 	if thorough {
-		maxShort = 40
+		maxShort = 32
 	}
 	for n := 1; n <= maxShort; n++ {
 		lengths = append(lengths, n)
 	}
 	long := []int{32, 64, 257}
 	if thorough {
-		long = []int{63, 64, 65, 127, 128, 129, 255, 256, 257, 1000}
+		long = []int{63, 64, 65, 127, 128, 129, 256, 257, 1000}
 	}
 	lengths = append(lengths, long...)
 	kinds := []string{"letters", "ids", "prefixes", "numbered", "mixed"}
@@ -288,11 +288,15 @@ func (g *c11qGen) allL(o *opts, r *rng) {
 			pool := c11lPool(r, kind, n)
 			non := c11lNonMembers(pool)
 			isLong := n > maxShort
-			// rows: every value of the list; quick tier, long lists: 32 of them (evenly spaced in byte order, the two
-			// smallest and the two largest included) - the model evaluates lists x rows
+			// rows: every value of the list; long lists: 32-48 of them (evenly spaced in byte order, the two smallest and
+			// the two largest included) - the model evaluates lists x rows
 			probed := pool
 			if isLong && !thorough {
 				probed = c11lSample(pool, 32)
+			} else if n >= 1000 {
+				probed = c11lSample(pool, 32)
+			} else if isLong {
+				probed = c11lSample(pool, 48)
 			}
 			// primary paths (every order, every position): the stored string field and the ast-level symbol; the other
 			// left-hand sides in rotation (thorough: all of them)
@@ -302,6 +306,9 @@ func (g *c11qGen) allL(o *opts, r *rng) {
 			}
 			if thorough {
 				paths = c11qPaths
+				if isLong {
+					paths = []string{"name", "sym", c11qPaths[2+(n+ki)%5], c11qPaths[2+(n+ki+2)%5]}
+				}
 			}
 			for pi, path := range paths {
 				if n > 300 && path != "name" && path != "sym" {
@@ -311,10 +318,13 @@ func (g *c11qGen) allL(o *opts, r *rng) {
 				if len(rows) == 0 {
 					continue
 				}
-				primary := pi == 0 || (kind == "letters" && pi == 1) || thorough
+				primary := pi == 0 || (kind == "letters" && pi == 1) || (thorough && pi < 2)
 				orders := c11lOrders
-				if !primary || (isLong && !thorough) {
+				if !primary || isLong {
 					orders = c11lOrders[:4]
+				}
+				if n >= 1000 {
+					orders = c11lOrders[:3]
 				}
 				for oi, order := range orders {
 					list := c11lArrange(r, order, pool)
@@ -322,6 +332,8 @@ func (g *c11qGen) allL(o *opts, r *rng) {
 					positions := c11lPositions(r, len(list), all)
 					if isLong && !thorough {
 						positions = []int{0, len(list) / 2, len(list) - 1, r.intn(len(list))}
+					} else if n >= 1000 {
+						positions = []int{0, len(list) / 2, len(list) - 1}
 					}
 					for _, k := range positions {
 						if path == "id" && len(list[k]) == 0 {
@@ -337,7 +349,7 @@ func (g *c11qGen) allL(o *opts, r *rng) {
 						}
 						op := ops[(k+oi+n)%2]
 						g.c11lEmitQ(path, op, ctx, esc, list, k, rows)
-						if primary && (kind == "letters" || thorough) && (!isLong || thorough) {
+						if primary && kind == "letters" && !isLong {
 							g.c11lEmitQ(path, ops[(k+oi+n+1)%2], ctx, esc, list, k, rows)
 						}
 					}
@@ -352,7 +364,7 @@ func (g *c11qGen) allL(o *opts, r *rng) {
 	m := &c11mGen{g: g, r: r}
 	mLengths := []int{5, 7, 8, 9, 12, 16, 17, 33}
 	if thorough {
-		mLengths = []int{5, 6, 7, 8, 9, 10, 11, 12, 15, 16, 17, 20, 31, 32, 33, 63, 64, 65, 128, 200}
+		mLengths = []int{5, 6, 7, 8, 9, 10, 11, 12, 15, 16, 17, 20, 31, 32, 33, 63, 64, 65, 100}
 	}
 	before := g.env.setups
 	for _, kind := range []string{"letters", "ids", "mixed"} {
